@@ -244,8 +244,8 @@ OpAct(bd) == [a |-> "op", op |-> bd.op, f |-> bd.f, ok |-> bd.ok, wlen |-> bd.wl
 
 C10Clauses == {"C10_rejoin_set", "C10_clock", "C10_event_clock", "C10_query_clock"}
 C11Clauses == {"C11_crash_safe", "C11_snapshot_missing"}
-C12Clauses == {"C12_no_panic", "C12_events_forwarded", "C12_later_changes_recorded"}
-C13Clauses == {"C13_no_rejoin_after_leave", "C13_rejoin_set_at_leave"}
+C12Clauses == {"C12_no_panic", "C12_forwarded", "C12_later_recorded"}
+C13Clauses == {"C13_no_rejoin", "C13_set_at_leave"}
 
 V(c, t) == [c |-> c, t |-> t \cup cfg.tags]
 MonInit == [viol |-> {}, exp |-> ZeroSt, eclk |-> 0, left |-> FALSE, atLeave |-> NoAlive, clean |-> FALSE,
@@ -281,7 +281,7 @@ MonOp(m, act, o) ==
       cs   == IF dur THEN {cur} ELSE m.cands \cup {cur}
       safe == \E c \in cs : Match(o.rec, c)
       wr   == m.written \/ (act.op = "write" /\ act.f = "cur" /\ act.ok)
-      tg   == IF act.op = "remove" /\ act.ok THEN {"crash_between_remove_and_rename"} ELSE {}
+      tg   == IF act.op = "remove" /\ act.ok THEN {"rm_window"} ELSE {}
       nofault == ~m.faulted /\ act.ok
       v1   == IF nofault /\ ~safe THEN {V("C11_crash_safe", tg)} ELSE {}
       v2   == IF nofault /\ o.nf /\ wr THEN {V("C11_snapshot_missing", tg)} ELSE {}
@@ -292,20 +292,20 @@ RestartClauses(m, st) ==
   IF ~m.had \/ ~m.clean THEN {}
   ELSE IF m.left /\ m.faulted THEN {}
   ELSE IF m.left THEN
-         (IF ~cfg.ral /\ st.alive # NoAlive THEN {V("C13_no_rejoin_after_leave", {})} ELSE {})
-         \cup (IF cfg.ral /\ st.alive # m.atLeave THEN {V("C13_rejoin_set_at_leave", {})} ELSE {})
+         (IF ~cfg.ral /\ st.alive # NoAlive THEN {V("C13_no_rejoin", {})} ELSE {})
+         \cup (IF cfg.ral /\ st.alive # m.atLeave THEN {V("C13_set_at_leave", {})} ELSE {})
   ELSE IF m.faulted THEN
          (IF \/ \E n \in m.tn : st.alive[n] # m.exp.alive[n]
              \/ "c" \in m.tc /\ st.lc # m.exp.lc
              \/ "e" \in m.tc /\ st.ec # m.exp.ec
              \/ "q" \in m.tc /\ st.qc # m.exp.qc
-          THEN {V("C12_later_changes_recorded", {})} ELSE {})
+          THEN {V("C12_later_recorded", {})} ELSE {})
   ELSE (IF st.alive # m.exp.alive \/ st.x # 0 THEN {V("C10_rejoin_set", {})} ELSE {})
        \cup (IF st.lc # m.exp.lc THEN {V("C10_clock", {})} ELSE {})
        \cup (IF st.ec # m.exp.ec THEN {V("C10_event_clock", {})} ELSE {})
        \cup (IF st.qc # m.exp.qc THEN {V("C10_query_clock", {})} ELSE {})
 
-FaultTags(m) == IF m.fop \in {"remove:cur", "rename:tmp", "open:cur"} THEN {"fault_in_compaction_swap"} ELSE {}
+FaultTags(m) == IF m.fop \in {"remove:cur", "rename:tmp", "open:cur"} THEN {"swap_fault"} ELSE {}
 
 MonStep(m, act, o) ==
   CASE act.a = "feed"     -> MonFeed(m, act)
@@ -316,7 +316,7 @@ MonStep(m, act, o) ==
     [] act.a = "op"       -> MonOp(m, act, o)
     [] act.a = "done"     -> LET m1 == [m EXCEPT !.cands = @ \cup {Proj(o.mem)},
                                                   !.viol = @ \cup (IF act.of = "feed" /\ ~o.fwd
-                                                                   THEN {V("C12_events_forwarded", FaultTags(m))} ELSE {})]
+                                                                   THEN {V("C12_forwarded", FaultTags(m))} ELSE {})]
                              IN  IF act.of = "shutdown" THEN [m1 EXCEPT !.clean = TRUE] ELSE m1
     [] act.a = "panic"    -> [m EXCEPT !.viol = @ \cup {V("C12_no_panic", FaultTags(m))}, !.clean = FALSE]
     [] act.a = "started"  -> IF ~o.ok THEN m
@@ -405,7 +405,7 @@ CONSTANTS MaxSteps,    \* environment inputs per behaviour
 
 ModelCfg(mcs, ral) ==
   [mcs |-> mcs, ral |-> ral, bpn |-> Bpn, nlen |-> [n \in 1..NN |-> 6], alen |-> [a \in 1..NA |-> 14],
-   tlen |-> [t \in 1..MaxT + 1 |-> 1], evil |-> Evil, tags |-> IF Evil = {} THEN {} ELSE {"name_has_newline"}]
+   tlen |-> [t \in 1..MaxT + 1 |-> 1], evil |-> Evil, tags |-> IF Evil = {} THEN {} ELSE {"nl_name"}]
 
 Ev(ty, ms, t) == [a |-> "feed", ty |-> ty, ms |-> ms, t |-> t, fail |-> 0]
 EvSet ==
@@ -448,10 +448,10 @@ Next ==
 Spec == Init /\ [][Next]_vars
 
 \* the model's own monitors: everything except the recorded findings must hold
-Waived(v) == \/ v.c = "C11_crash_safe"  /\ "crash_between_remove_and_rename" \in v.t
-             \/ v.c = "C11_snapshot_missing" /\ "crash_between_remove_and_rename" \in v.t
-             \/ v.c = "C12_no_panic"    /\ "fault_in_compaction_swap" \in v.t
-             \/ v.c \in C10Clauses \cup C11Clauses \cup C13Clauses /\ "name_has_newline" \in v.t
+Waived(v) == \/ v.c = "C11_crash_safe"  /\ "rm_window" \in v.t
+             \/ v.c = "C11_snapshot_missing" /\ "rm_window" \in v.t
+             \/ v.c = "C12_no_panic"    /\ "swap_fault" \in v.t
+             \/ v.c \in C10Clauses \cup C11Clauses \cup C13Clauses /\ "nl_name" \in v.t
 Props      == \A v \in W.M.viol : Waived(v)
 \* reachability of each recorded finding: these are EXPECTED to be violated (one config each)
 NoFinding(c) == \A v \in W.M.viol : v.c # c
